@@ -54,7 +54,7 @@ Empty == [n |-> 0, cap |-> 0, cl |-> <<>>, pl |-> <<>>, ql |-> <<>>, mq |-> <<>>
           got |-> <<>>, scene |-> <<>>, sver |-> <<>>, gver |-> <<>>, dead |-> FALSE]
 Counters == {"events", "drops", "unregister_of_dropped", "update_of_unregistered", "long_name", "long_objects",
              "bad_orientation", "state_frames", "state_frames_with_players", "closed_seen", "first_is_id", "codec_state",
-             "codec_state_in_domain", "codec_ori", "codec_id", "cases"}
+             "codec_state_in_domain", "codec_ori", "codec_id", "cases", "signalling_nan_payloads"}
 Init == l = 1 /\ m = Empty /\ cnt = [k \in Counters |-> 0]
 
 Inc(c, ks) == [k \in Counters |-> IF k \in ks THEN c[k] + 1 ELSE c[k]]
@@ -98,6 +98,8 @@ ObsPl(ln) ==
 NameOk(new, old, p) == IF Len(p) <= 255 THEN new = p ELSE (new = old \/ IsPrefix(new, p))
 RepOk(new, old, p) ==
     IF Len(p) % ObjSize # 0 THEN new = old
+    ELSE IF HasSNaN(p)       \* outside the float domain: only the shape is judged
+         THEN new = old \/ Len(new) = Len(Chunks(p)) \/ (Len(Chunks(p)) > 255 /\ Len(new) <= 255)
     ELSE LET objs == Chunks(p) IN IF Len(objs) <= 255 THEN new = objs ELSE (new = old \/ IsPrefix(new, objs))
 
 StepOk(ln, cl2, pl2) ==
@@ -165,7 +167,8 @@ Ev ==
                          \cup (IF ln.op = "update" /\ c \notin DOMAIN m.cl THEN {"update_of_unregistered"} ELSE {})
                          \cup (IF ln.op = "update" /\ ln.ut = 1 /\ Len(ln.p) > 255 THEN {"long_name"} ELSE {})
                          \cup (IF ln.op = "update" /\ ln.ut = 0 /\ Len(ln.p) % ObjSize = 0 /\ Len(ln.p) > 255 * ObjSize THEN {"long_objects"} ELSE {})
-                         \cup (IF ln.op = "update" /\ ln.ut = 0 /\ Len(ln.p) % ObjSize # 0 THEN {"bad_orientation"} ELSE {}))
+                         \cup (IF ln.op = "update" /\ ln.ut = 0 /\ Len(ln.p) % ObjSize # 0 THEN {"bad_orientation"} ELSE {})
+                         \cup (IF ln.op = "update" /\ ln.ut = 0 /\ Len(ln.p) % ObjSize = 0 /\ HasSNaN(ln.p) THEN {"signalling_nan_payloads"} ELSE {}))
                /\ Summary(cnt')
     /\ l' = l + 1
 
@@ -238,14 +241,15 @@ Codec ==
                                      /\ PlOfList(ln.dec.st.pl) = st.pl /\ ln.dec.st.ver = st.ver /\ ln.dec.st.scene = CanonScene(st.scene)
                                   THEN {} ELSE {"X02.RoundTrip"})
                     [] ln.sub = "ori" ->
-                       IF (Len(ln.p) % ObjSize = 0 /\ ln.eres = "ok" /\ ln.objs = Chunks(ln.p))
+                       IF (Len(ln.p) % ObjSize = 0 /\ ln.eres = "ok" /\ (ln.objs = Chunks(ln.p) \/ (HasSNaN(ln.p) /\ Len(ln.objs) = Len(Chunks(ln.p)))))
                           \/ (Len(ln.p) % ObjSize # 0 /\ ln.eres = "err") THEN {} ELSE {"X02.OriParse"}
                     [] OTHER ->
                        IF ln.fr = <<TId>> \o ln.id /\ ln.dec.res = "ok" /\ ln.dec.t = TId /\ ln.dec.sid = ln.id
                        THEN {} ELSE {"X02.IdRoundTrip"}
        IN /\ Reject(bad, ln.h)
           /\ cnt' = Inc(cnt, CASE ln.sub = "state" -> {"codec_state"} \cup (IF dom THEN {"codec_state_in_domain"} ELSE {})
-                               [] ln.sub = "ori" -> {"codec_ori"} [] OTHER -> {"codec_id"})
+                               [] ln.sub = "ori" -> {"codec_ori"} \cup (IF Len(ln.p) % ObjSize = 0 /\ HasSNaN(ln.p) THEN {"signalling_nan_payloads"} ELSE {})
+                               [] OTHER -> {"codec_id"})
           /\ Summary(cnt')
     /\ m' = m /\ l' = l + 1
 
